@@ -1,5 +1,5 @@
-(* Proofs/WeightsMachine.v — the step machine against the specification.
-   FINITE-DOMAIN check by computation (the unbounded statement is kept, open, in Properties/C04.v). *)
+(* Proofs/WeightsMachine.v — comparing yield sequences of the step machine and of the specification
+   (the refinement theorem itself is in Proofs/WeightsRef.v). *)
 From Coq Require Import QArith.
 From CKT Require Import Common.Base Model.Weights.
 Open Scope Q_scope.
@@ -20,23 +20,3 @@ Definition refines_b (probs : list (list Q)) (thr : Q) : bool :=
   | None => false
   end.
 
-(* the finite domain: 1..3 bases, each a non-increasing vector of 1..3 entries k/4 with k <= 3;
-   thresholds 1/64, 1/16, 1/8, 1/4, 1/2, 1 *)
-Definition small_q : list Q := [0; 1 # 4; 2 # 4; 3 # 4].
-Fixpoint desc_vecs (n : nat) (maxi : nat) : list (list Q) :=
-  match n with
-  | O => [[]]
-  | S n' => flat_map (fun i => map (cons (nth i small_q 0)) (desc_vecs n' i)) (seq 0 (S maxi))
-  end.
-Definition fin_vecs : list (list Q) := desc_vecs 1 3 ++ desc_vecs 2 3 ++ desc_vecs 3 3.
-Fixpoint base_lists (n : nat) : list (list (list Q)) :=
-  match n with O => [[]] | S n' => flat_map (fun v => map (cons v) (base_lists n')) fin_vecs end.
-Definition fin_inputs : list (list (list Q)) := base_lists 1 ++ base_lists 2 ++ base_lists 3.
-Definition fin_thrs : list Q := [1 # 64; 1 # 16; 1 # 8; 1 # 4; 1 # 2; 1].
-
-Lemma machine_refines_spec_fin :
-  forallb (fun p => forallb (refines_b p) fin_thrs) fin_inputs = true.
-Proof. vm_cast_no_check (eq_refl true). Qed.
-
-Lemma fin_inputs_count : N.of_nat (length fin_inputs) = 40494%N.
-Proof. vm_compute. reflexivity. Qed.
